@@ -27,7 +27,7 @@ fn now_ms() -> u64 {
 
 /// Wall-clock seconds after which a single run counts as hung (runs take milliseconds).
 pub fn hang_s() -> u64 {
-    std::env::var("VERIF_HANG_S").ok().and_then(|s| s.parse().ok()).unwrap_or(120)
+    std::env::var("VERIF_HANG_S").ok().and_then(|s| s.parse().ok()).unwrap_or(300)
 }
 
 pub fn enter(slot: usize, engine_index: u64, run_index: u64) {
